@@ -273,3 +273,51 @@ def canary(env):
     g1, g2 = k.grads((R * R).sum(-1, keepdim=True))
     grad, hess = robust_sums(T, R, J, g1, g2 * 0)
     env.eq('JtJ_without_curvature', J2.transpose(-1, -2) @ J2, hess)
+
+
+@bounded('C09.correctors_real_kernels', functions=[f'{COR}:FastTriggs.forward', f'{COR}:Triggs.forward', f'{KER}:*.forward'])
+def real_kernels(rng, tier):
+    """real code, real autograd: every kernel x {FastTriggs, Triggs}, residuals of shape (n, d), d in 1..6, INCLUDING zero residual rows and rows
+    exactly at the Huber threshold: J'^T R' is finite and equals sum_i rho'(|R_i|^2) J_i^T R_i with rho' from the documented closed forms"""
+    import torch, math, pypose as pp
+    d64 = torch.float64
+    N = 8 if tier == 'quick' else 60
+    fails = []; evals = 0; samples = []
+    g = torch.Generator().manual_seed(rng.randrange(1 << 30))
+    def slopes(name, p, x):
+        if name == 'Huber': return torch.where(x.sqrt() < p, torch.ones_like(x), p / x.sqrt().clamp(min=1e-300))
+        if name == 'PseudoHuber': return 1 / (x / p ** 2 + 1).sqrt()
+        if name == 'Cauchy': return 1 / (x / p ** 2 + 1)
+        if name == 'SoftLOne': return p / (1 / p ** 2 + x).sqrt()
+        if name == 'Arctan': return 1 / (1 + (x / p ** 2) ** 2)
+        if name == 'Tolerant': a, b = p; e = ((x - a) / b).exp(); return e / (1 + e)
+        if name == 'Scale': return torch.full_like(x, p)
+    for t in range(N):
+        n, dd, k = rng.randrange(2, 6), rng.randrange(1, 7), rng.randrange(1, 4)
+        for name in ('Huber', 'PseudoHuber', 'Cauchy', 'SoftLOne', 'Arctan', 'Tolerant', 'Scale'):
+            p = (rng.uniform(0.5, 2.0), -rng.uniform(0.5, 2.0)) if name == 'Tolerant' else (rng.uniform(0.3, 1.0) if name == 'Scale' else rng.uniform(0.3, 3.0))
+            ker = getattr(pp.optim.kernel, name)(*p) if name == 'Tolerant' else getattr(pp.optim.kernel, name)(p)
+            R = torch.randn(n, dd, dtype=d64, generator=g)
+            R[0] = 0.0                                            # a zero residual row
+            if name == 'Huber':
+                R[1] = R[1] / R[1].norm() * p                     # exactly at the threshold
+            J = torch.randn(n * dd, k, dtype=d64, generator=g)
+            x = (R * R).sum(-1)
+            g1 = slopes(name, p, x)
+            ref = (J.view(n, dd, k) * (g1[:, None] * R)[..., None]).sum((0, 1))
+            for cname in ('FastTriggs', 'Triggs'):
+                try:
+                    R2, J2 = getattr(pp.optim.corrector, cname)(ker)(R=R.clone(), J=J.clone())
+                except Exception as e:
+                    fails.append(dict(clause='corrector_raises', signature=f'{cname}/{name}', error=f'{type(e).__name__}: {e}'[:160])); continue
+                evals += 1
+                out = J2.T @ R2.reshape(-1)
+                if not bool(torch.isfinite(R2).all() and torch.isfinite(J2).all()):
+                    fails.append(dict(clause='corrected_values_finite', signature=f'{cname}/{name}', note='zero residual row or threshold row')); continue
+                if not torch.allclose(out, ref, rtol=1e-7, atol=1e-9):
+                    fails.append(dict(clause='JtR_is_robust_gradient', signature=f'{cname}/{name}', err=float((out - ref).abs().max())))
+        if t < 1: samples.append(dict(n=n, d=dd, k=k))
+    uniq = {}
+    for f in fails: uniq.setdefault((f['clause'], f['signature']), f)
+    return dict(evaluations=evals, distinct_nontrivial=evals, rule='random residuals with one exactly-zero row (and one row exactly at the Huber threshold), 7 kernels x 2 correctors; all distinct',
+                bound='n in 2..5, d in 1..6, k in 1..3', failures=list(uniq.values())[:8], samples=samples)
